@@ -303,15 +303,15 @@ func min(a, b int) int {
 func init() {
 	tail := "; a quarter of the cases under the cutting-planes strategy; oracle = brute-force minimum over all assignments; Optimal(nil), Optimal(chan) and (non-negative costs) Minimize+Model each on a fresh solver; non-trivial = result stream of length >=2, or optimum >0 with >=2 distinct feasible costs"
 	vf.Register(
-		vf.Sub[Case]{Name: "uniform-cnf", Quick: 6000, Thorough: 80000, Gen: genUniform("cnf"), Check: check, Floor: 0.07,
+		vf.Sub[Case]{Name: "uniform-cnf", Quick: 6000, Thorough: 48000, Gen: genUniform("cnf"), Check: check, Floor: 0.07,
 			Rule: "random CNF (n<=10) with a cost function over distinct variables, either polarity, weights 0..9 or nil" + tail},
-		vf.Sub[Case]{Name: "uniform-pb", Quick: 6000, Thorough: 80000, Gen: genUniform("pb"), Check: check, Floor: 0.07,
+		vf.Sub[Case]{Name: "uniform-pb", Quick: 6000, Thorough: 48000, Gen: genUniform("pb"), Check: check, Floor: 0.07,
 			Rule: "random PB constraints via ParsePBConstrs with a cost function" + tail},
-		vf.Sub[Case]{Name: "uniform-card", Quick: 6000, Thorough: 80000, Gen: genUniform("card"), Check: check, Floor: 0.07,
+		vf.Sub[Case]{Name: "uniform-card", Quick: 6000, Thorough: 48000, Gen: genUniform("card"), Check: check, Floor: 0.07,
 			Rule: "random cardinality constraints via ParseCardConstrs with a cost function" + tail},
-		vf.Sub[Case]{Name: "uniform-opb", Quick: 6000, Thorough: 80000, Gen: genUniform("opb"), Check: check, Floor: 0.07,
+		vf.Sub[Case]{Name: "uniform-opb", Quick: 6000, Thorough: 48000, Gen: genUniform("opb"), Check: check, Floor: 0.07,
 			Rule: "random PB problems rendered to OPB text (conventional layout) with a min: line whose coefficients have either sign, via ParseOPB" + tail},
-		vf.Sub[Case]{Name: "covering", Quick: 8000, Thorough: 100000, Gen: genCovering, Check: check, Floor: 0.5,
+		vf.Sub[Case]{Name: "covering", Quick: 8000, Thorough: 60000, Gen: genCovering, Check: check, Floor: 0.5,
 			Classes: map[string]float64{"stream-len>=2": 0.12},
 			Rule:    "covering-style instances whose first model is usually sub-optimal: weighted vertex cover (CNF), set cover with PB rows (ParsePBConstrs / OPB), 'at least k of the cost literals' (PB / card / OPB)" + tail},
 	)
